@@ -3,7 +3,7 @@ from cfg import Inconclusive, op_place, show, walk, strip_casts
 from common import (atomic_op, calls_to, callee, closure_creations, closure_consumer, field_chain, fn_of,
                     find_fn, get_fn, head_sources, peel, site, guards_of, field_assigns, field_borrows,
                     field_reads, is_diverging, ret_aggregates)
-from common import bool_param, is_arg
+from common import bool_param, is_arg, spawn_closures
 from props.c09 import classify
 from props.c19 import is_worker_field, canon_atom
 
@@ -186,9 +186,9 @@ def rule_stream_switch(ctx):
             ctx.ok(site(ti, good_asg[0]), "cleared ⇒ inner.items = self.items.clone() before the spawn")
         # and it is not assigned when not cleared (would be harmless) — no check
     # the closure captures that same `cleared` value and passes it to run
-    cr = [c for c in closure_creations(ti) if c[3] == TICK_INNER + "::{closure#0}"]
+    cr = spawn_closures(ti)
     if not cr:
-        raise Inconclusive("spawn closure not found")
+        raise Inconclusive("no closure handed to ThreadPool::spawn found in tick_inner")
     caps = cr[0][4]
     cleared_caps = [n_ for n_, o in caps.items() if ti.expr_of_operand(o)[0] == "call" and ti.expr_of_operand(o)[1] == "State::cleared"]
     bool_caps = [n_ for n_, o in caps.items() if op_place(o) is not None and not op_place(o)["p"] and ti.b["locals"][op_place(o)["l"]]["ty"] == "bool"]
@@ -199,7 +199,7 @@ def rule_stream_switch(ctx):
     else:
         ctx.violation(TICK_INNER + "|cleared-arg|0", site(ti, cr[0][0], cr[0][1]), "run closure does not carry the cleared flag")
     cap_name = (cleared_caps or bool_caps or ["cleared"])[0]
-    cf = get_fn(ctx.facts, "nucleo", TICK_INNER + "::{closure#0}")
+    cf = get_fn(ctx.facts, "nucleo", cr[0][3])
     rc = [(bi, t) for bi, t in cf.calls(lambda t: callee(t) == RUN)]
     if rc:
         a = cf.expr_of_operand(rc[0][1]["args"][2])
